@@ -35,6 +35,7 @@ pub fn plan(prop: &str, tier: Tier) -> Option<(&'static str, Vec<Job>)> {
         "C13" => vec![
             Job::new("wire", if q { 40_000 } else { 1_500_000 }),
             Job::new("catalogue", if q { 600 } else { 20_000 }).caches(&["off", "big"]),
+            Job::new("frames", if q { 1000 } else { 50_000 }).shrink(60),
         ],
         "C14" => vec![Job::new("partlog", if q { 1400 } else { 50_000 }).caches(all3)],
         "C15" => vec![Job::new("partlog", if q { 1400 } else { 50_000 }).caches(all3)],
